@@ -18,13 +18,13 @@ struct AxisFile {
 };
 AxisFile AF;
 
-// the typed handle objects themselves are kept (a front-end object may remember things; converting it to a generic Dimension
-// and back would create a new object)
-struct Ax { nix::Dimension d; nix::SampledDimension sa; nix::RangeDimension ra; nix::SetDimension se; nix::DataFrameDimension fr; };
-Ax typed(const nix::SampledDimension &x) { Ax a; a.sa = x; a.d = x; return a; }
-Ax typed(const nix::RangeDimension &x) { Ax a; a.ra = x; a.d = x; return a; }
-Ax typed(const nix::SetDimension &x) { Ax a; a.se = x; a.d = x; return a; }
-Ax typed(const nix::DataFrameDimension &x) { Ax a; a.fr = x; a.d = x; return a; }
+// the typed handle OBJECTS themselves are kept, on the heap, and never copied or assigned after their first use (a front-end
+// object may remember things; a copy or an assignment would create a new object or reset it)
+struct Ax { std::shared_ptr<nix::SampledDimension> sa; std::shared_ptr<nix::RangeDimension> ra; std::shared_ptr<nix::SetDimension> se; std::shared_ptr<nix::DataFrameDimension> fr; };
+Ax typed(const nix::SampledDimension &x) { Ax a; a.sa = std::make_shared<nix::SampledDimension>(x); return a; }
+Ax typed(const nix::RangeDimension &x) { Ax a; a.ra = std::make_shared<nix::RangeDimension>(x); return a; }
+Ax typed(const nix::SetDimension &x) { Ax a; a.se = std::make_shared<nix::SetDimension>(x); return a; }
+Ax typed(const nix::DataFrameDimension &x) { Ax a; a.fr = std::make_shared<nix::DataFrameDimension>(x); return a; }
 
 Ax build(const ConcreteAxis &ax) {
     AF.a.deleteDimensions();
@@ -58,36 +58,36 @@ Ax buildKept(const ConcreteAxis &ax) {
     AF.a.deleteDimensions();
     auto warm = [](std::function<void()> f) { try { f(); } catch (...) {} };
     if (ax.kind == "sampled") {
-        nix::SampledDimension d = AF.a.appendSampledDimension(ax.interval * 2.0 + 1.0);
-        d.offset(ax.offset + 3.0);
-        warm([&] { (void) d.indexOf(1.0, nix::PositionMatch::GreaterOrEqual); (void) d.positionAt(2); });
+        Ax k = typed(AF.a.appendSampledDimension(ax.interval * 2.0 + 1.0));
+        k.sa->offset(ax.offset + 3.0);
+        warm([&] { (void) k.sa->indexOf(1.0, nix::PositionMatch::GreaterOrEqual); (void) k.sa->positionAt(2); (void) k.sa->indexOf(0.0, 1.0, nix::RangeMatch::Inclusive); });
         nix::SampledDimension e = AF.a.getDimension(1).asSampledDimension();
         e.samplingInterval(ax.interval); e.offset(ax.offset);
-        return typed(d);
+        return k;
     }
     if (ax.kind == "range") {
-        nix::RangeDimension d = AF.a.appendRangeDimension(std::vector<double>{-1000.0, 1000.0, 5000.0});
-        warm([&] { (void) d.indexOf(0.0, nix::PositionMatch::GreaterOrEqual); (void) d.tickAt(1); (void) d.positionInRange(0.0); });
+        Ax k = typed(AF.a.appendRangeDimension(std::vector<double>{-1000.0, 1000.0, 5000.0}));
+        warm([&] { (void) k.ra->indexOf(0.0, nix::PositionMatch::GreaterOrEqual); (void) k.ra->tickAt(1); (void) k.ra->positionInRange(0.0); (void) k.ra->indexOf(0.0, 1.0, {}, nix::RangeMatch::Inclusive); });
         nix::RangeDimension e = AF.a.getDimension(1).asRangeDimension();
         e.ticks(ax.ticks);
-        return typed(d);
+        return k;
     }
     if (ax.kind == "setL" || ax.kind == "set0") {
         std::vector<std::string> other, l;
         for (long i = 0; i < ax.count() + 2; i++) other.push_back("o" + std::to_string(i));
         if (ax.kind == "set0") other.resize(1);
-        nix::SetDimension d = AF.a.appendSetDimension(other);
-        warm([&] { (void) d.indexOf(0.0, nix::PositionMatch::GreaterOrEqual); (void) d.indexOf(0.0, 1.0, nix::RangeMatch::Inclusive); });
+        Ax k = typed(AF.a.appendSetDimension(other));
+        warm([&] { (void) k.se->indexOf(0.0, nix::PositionMatch::GreaterOrEqual); (void) k.se->indexOf(0.0, 1.0, nix::RangeMatch::Inclusive); });
         if (ax.kind == "setL") for (long i = 0; i < ax.count(); i++) l.push_back("l" + std::to_string(i));
         nix::SetDimension e = AF.a.getDimension(1).asSetDimension();
         e.labels(l);
-        return typed(d);
+        return k;
     }
     AF.df.rows((nix::ndsize_t) ax.count() + 2);
-    nix::DataFrameDimension d = AF.a.appendDataFrameDimension(AF.df, 0u);
-    warm([&] { (void) d.indexOf(0.0, nix::PositionMatch::GreaterOrEqual); });
+    Ax k = typed(AF.a.appendDataFrameDimension(AF.df, 0u));
+    warm([&] { (void) k.fr->indexOf(0.0, nix::PositionMatch::GreaterOrEqual); });
     AF.df.rows((nix::ndsize_t) ax.count());
-    return typed(d);
+    return k;
 }
 
 json idxJson(const boost::optional<nix::ndsize_t> &o) {
@@ -101,19 +101,19 @@ json pairJson(const boost::optional<std::pair<nix::ndsize_t, nix::ndsize_t>> &o)
 
 boost::optional<nix::ndsize_t> indexOfVia(int via, const Ax &d, const std::string &k, double p, nix::PositionMatch m) {
     // via 0: member indexOf ; via 1: util::positionToIndex
-    if (k == "sampled") { const nix::SampledDimension &s = d.sa; return via == 0 ? s.indexOf(p, m) : nix::util::positionToIndex(p, "none", m, s); }
-    if (k == "range") { const nix::RangeDimension &s = d.ra; return via == 0 ? s.indexOf(p, m) : nix::util::positionToIndex(p, "none", m, s); }
-    if (k == "frame") { const nix::DataFrameDimension &s = d.fr; return via == 0 ? s.indexOf(p, m) : nix::util::positionToIndex(p, m, s); }
-    const nix::SetDimension &s = d.se; return via == 0 ? s.indexOf(p, m) : nix::util::positionToIndex(p, m, s);
+    if (k == "sampled") { const nix::SampledDimension &s = *d.sa; return via == 0 ? s.indexOf(p, m) : nix::util::positionToIndex(p, "none", m, s); }
+    if (k == "range") { const nix::RangeDimension &s = *d.ra; return via == 0 ? s.indexOf(p, m) : nix::util::positionToIndex(p, "none", m, s); }
+    if (k == "frame") { const nix::DataFrameDimension &s = *d.fr; return via == 0 ? s.indexOf(p, m) : nix::util::positionToIndex(p, m, s); }
+    const nix::SetDimension &s = *d.se; return via == 0 ? s.indexOf(p, m) : nix::util::positionToIndex(p, m, s);
 }
 
 boost::optional<std::pair<nix::ndsize_t, nix::ndsize_t>> rangeOfVia(int via, const Ax &d, const std::string &k,
                                                                      double s, double e, nix::RangeMatch m) {
     std::vector<double> sv{s}, ev{e};
-    if (k == "sampled") { const auto &x = d.sa; return via == 0 ? x.indexOf(s, e, m) : via == 1 ? x.indexOf(sv, ev, m)[0] : nix::util::positionToIndex(sv, ev, std::vector<std::string>{"none"}, m, x)[0]; }
-    if (k == "range") { const auto &x = d.ra; return via == 0 ? x.indexOf(s, e, {}, m) : via == 1 ? x.indexOf(sv, ev, m)[0] : nix::util::positionToIndex(sv, ev, std::vector<std::string>{"none"}, m, x)[0]; }
-    if (k == "frame") { const auto &x = d.fr; return via == 0 ? x.indexOf(s, e, m) : via == 1 ? x.indexOf(sv, ev, m)[0] : nix::util::positionToIndex(sv, ev, m, x)[0]; }
-    const auto &x = d.se; return via == 0 ? x.indexOf(s, e, m) : via == 1 ? x.indexOf(sv, ev, m)[0] : nix::util::positionToIndex(sv, ev, m, x)[0];
+    if (k == "sampled") { const auto &x = *d.sa; return via == 0 ? x.indexOf(s, e, m) : via == 1 ? x.indexOf(sv, ev, m)[0] : nix::util::positionToIndex(sv, ev, std::vector<std::string>{"none"}, m, x)[0]; }
+    if (k == "range") { const auto &x = *d.ra; return via == 0 ? x.indexOf(s, e, {}, m) : via == 1 ? x.indexOf(sv, ev, m)[0] : nix::util::positionToIndex(sv, ev, std::vector<std::string>{"none"}, m, x)[0]; }
+    if (k == "frame") { const auto &x = *d.fr; return via == 0 ? x.indexOf(s, e, m) : via == 1 ? x.indexOf(sv, ev, m)[0] : nix::util::positionToIndex(sv, ev, m, x)[0]; }
+    const auto &x = *d.se; return via == 0 ? x.indexOf(s, e, m) : via == 1 ? x.indexOf(sv, ev, m)[0] : nix::util::positionToIndex(sv, ev, m, x)[0];
 }
 
 json handle(Ctx &c, const json &rec) {
@@ -141,8 +141,8 @@ json handle(Ctx &c, const json &rec) {
         // the axis definition itself: the library's coordinates must be the harness's
         for (long i = 0; i < n; i++) {
             double lib;
-            if (k == "sampled") lib = d.sa.positionAt((nix::ndsize_t) (ax.base + i));
-            else if (k == "range") lib = d.ra.tickAt((nix::ndsize_t) (ax.base + i));
+            if (k == "sampled") lib = d.sa->positionAt((nix::ndsize_t) (ax.base + i));
+            else if (k == "range") lib = d.ra->tickAt((nix::ndsize_t) (ax.base + i));
             else continue;
             evals++;
             if (lib != ax.x(i)) note(ax, "coordinate", "on", hexd(ax.x(i)), ax.x(i), lib);
@@ -160,7 +160,7 @@ json handle(Ctx &c, const json &rec) {
                 }
                 if (k == "range") {
                     std::string want = rec["inrange"];
-                    nix::PositionInRange pr = d.ra.positionInRange(pv.p);
+                    nix::PositionInRange pr = d.ra->positionInRange(pv.p);
                     std::string got = pr == nix::PositionInRange::Less ? "Less" : pr == nix::PositionInRange::Greater ? "Greater"
                                     : pr == nix::PositionInRange::InRange ? "InRange" : "NoRange";
                     evals++;
